@@ -84,6 +84,16 @@ theorem C02_gen_env_space_shape :
       ["self.game: PrimaiteGame = PrimaiteGame.from_config(cfg=self.episode_scheduler(self.episode_counter))"] := by
   decide
 
+/-- the flatten guard (F-C02-2 repaired): `ProxyAgent.model_post_init` first builds the managers, then raises ValueError when
+`flatten_obs` is set and `_has_empty_dict(space)` — a Dict without entries anywhere inside, the negation of `Space.flattenable` -/
+theorem C02_gen_flatten_guard :
+    ObsCfgTables.proxyAgentFlattenGuard = ["self.flatten_obs and _has_empty_dict(self.observation_manager.space)"] ∧
+    ObsCfgTables.proxyAgentFlattenGuardRaises = ["Raise:ValueError"] ∧ ObsCfgTables.proxyAgentGuardAfterManagersBuilt = true ∧
+    ObsCfgTables.hasEmptyDictBody =
+      ["if isinstance(space, spaces.Dict):",
+       "return len(space.spaces) == 0 or any((_has_empty_dict(sub) for sub in space.spaces.values()))", "return False"] := by
+  decide
+
 /-! ### objects built from a scenario's words satisfy the invariant the in-space theorems need -/
 
 theorem mem_padTo {α} {n : Nat} {d x : α} {xs : List α} (h : x ∈ padTo n d xs) : x = d ∨ x ∈ xs := by
@@ -221,23 +231,17 @@ theorem C02_nodes_build_ok (thr : ThrCfg) (c : NodesCfg) (o : NodesObs) (hw : c.
     · exact absurd hb (by simp)
   · exact absurd hb (by simp)
 
-/-- for an object built from a configuration the ACL hypothesis of the in-space theorems reduces to the slot count (F-6, open):
-the "no repeated entry" half holds by construction -/
-theorem C02_nodes_build_compat (thr : ThrCfg) (c : NodesCfg) (o : NodesObs) (st : SimState) (hb : c.build thr = some o)
-    (hr : ∀ r ∈ o.routers, ∀ slots, r.acl.find st = some slots → r.acl.numRules ≤ slots.length)
-    (hf : ∀ f ∈ o.firewalls, ∀ a slots, (f.acl a).find st = some slots → f.numRules ≤ slots.length) : o.Compat st := by
+/-- everything `NodesObservation.from_config` builds satisfies the construction invariant of the ACL-carrying parts -/
+theorem C02_nodes_build_cfgOk (thr : ThrCfg) (c : NodesCfg) (o : NodesObs) (hb : c.build thr = some o) : o.CfgOk := by
   unfold NodesCfg.build at hb
   split at hb
   · split at hb
     · next hs rs fs h1 h2 h3 =>
       injection hb with hb
       subst hb
-      refine ⟨?_, ?_⟩
-      · intro r hmem
-        obtain ⟨rc, _, hb'⟩ := allSome_mem _ _ _ h2 r hmem
-        exact ⟨C02_router_build_cfgOk c rc r hb', hr r hmem⟩
-      · intro f hmem a slots hfind
-        exact hf f hmem a slots hfind
+      intro r hmem
+      obtain ⟨rc, _, hb'⟩ := allSome_mem _ _ _ h2 r hmem
+      exact C02_router_build_cfgOk c rc r hb'
     · exact absurd hb (by simp)
   · exact absurd hb (by simp)
 
@@ -297,6 +301,34 @@ theorem C02_raw_buildL_ok (thr : ThrCfg) : ∀ (cs : List (String × RawObs)) (o
         exact ⟨C02_raw_build_ok thr c.2 o hw.1 h1, C02_raw_buildL_ok thr cs os0 hw.2 h2⟩
 end
 
+mutual
+theorem C02_raw_build_cfgOk (thr : ThrCfg) : ∀ (r : RawObs) (o : Obs), r.build thr = some o → o.CfgOk
+  | .null, o, hb => by simp [RawObs.build] at hb; subst hb; trivial
+  | .links refs, o, hb => by simp [RawObs.build] at hb; subst hb; trivial
+  | .nodes c, o, hb => by
+    simp only [RawObs.build, Option.map_eq_some_iff] at hb
+    obtain ⟨n, hn, rfl⟩ := hb
+    exact C02_nodes_build_cfgOk thr c n hn
+  | .nested cs, o, hb => by
+    simp only [RawObs.build, Option.map_eq_some_iff] at hb
+    obtain ⟨os, hos, rfl⟩ := hb
+    exact C02_raw_buildL_cfgOk thr cs os hos
+theorem C02_raw_buildL_cfgOk (thr : ThrCfg) : ∀ (cs : List (String × RawObs)) (os : List (String × Obs)),
+    RawObs.buildL thr cs = some os → Obs.CfgOkL os
+  | [], os, hb => by simp [RawObs.buildL] at hb; subst hb; trivial
+  | c :: cs, os, hb => by
+    unfold RawObs.buildL at hb
+    cases h1 : c.2.build thr with
+    | none => simp [h1] at hb
+    | some o =>
+      cases h2 : RawObs.buildL thr cs with
+      | none => simp [h1, h2] at hb
+      | some os0 =>
+        simp [h1, h2] at hb
+        subst hb
+        exact ⟨C02_raw_build_cfgOk thr c.2 o h1, C02_raw_buildL_cfgOk thr cs os0 h2⟩
+end
+
 /-- the default observation of everything built from a scenario is a member of the declared space -/
 theorem C02_built_default_in_space (thr : ThrCfg) (r : RawObs) (o : Obs) (hw : r.Wf) (hb : r.build thr = some o) :
     contains o.space o.default = true :=
@@ -305,8 +337,8 @@ theorem C02_built_default_in_space (thr : ThrCfg) (r : RawObs) (o : Obs) (hw : r
 /-- **C02 from the scenario's words**: for the object built from ANY accepted observation_space section, every observation reported
 along any sequence of well-formed states is a member of the one space declared by that object -/
 theorem C02_built_run_in_space (thr : ThrCfg) (r : RawObs) (o : Obs) (hw : r.Wf) (hb : r.build thr = some o)
-    (sts : List SimState) (h : ∀ st ∈ sts, WfState st ∧ o.Compat st) : ∀ v ∈ o.run sts, contains o.space v = true :=
-  C02_run_in_space sts o (C02_raw_build_ok thr r o hw hb) h
+    (sts : List SimState) (h : ∀ st ∈ sts, WfState st) : ∀ v ∈ o.run sts, contains o.space v = true :=
+  C02_run_in_space sts o (C02_raw_build_ok thr r o hw hb) (C02_raw_build_cfgOk thr r o hb) h
 
 /-! ### gymnasium `flatten`: length and range are functions of the space only -/
 
@@ -324,7 +356,8 @@ def C02_FullFlatten : Prop :=
 mutual
 /-- **a member of a space without empty sub-dictionaries flattens, without raising, to a 0/1 vector whose length is `flatDim space`**
 — the length never depends on the observation, only on the space (so it equals `flatten_space(space).shape[0]` in every step).
-Partial: `flattenable` excludes exactly the spaces gymnasium refuses (finding F-C02-2, open). -/
+`flattenable` excludes exactly the spaces gymnasium refuses; PrimAITE now rejects a flattened agent with such a space when it is
+built (F-C02-2 repaired, `EpisodeCfg.accepts`), so at environment level the hypothesis is discharged by acceptance. -/
 theorem C02_flatten_length_partial : ∀ (s : Space) (v : Val), s.flattenable = true → contains s v = true →
     ∃ x, flatten s v = some x ∧ x.length = flatDim s ∧ ∀ b ∈ x, b ≤ 1
   | .discrete n, .int i, _, _ => ⟨oneHot n i, by simp [flatten], by simp [flatDim, (oneHot_spec n i).1], (oneHot_spec n i).2⟩
@@ -356,7 +389,7 @@ theorem C02_flattenL_length : ∀ (ss : List (Key × Space)) (vs : List (Key × 
       · exact hbb y hy
 end
 
-/-- F-C02-2: an observation space with an empty sub-dictionary (`num_rules: 0`, a monitored protocol without ports, no link references,
+/-- gymnasium's limit (what F-C02-2 was about): an observation space with an empty sub-dictionary (`num_rules: 0`, a monitored protocol without ports, no link references,
 a nodes component without nodes) has members, and gymnasium cannot flatten them -/
 theorem C02_flatten_counterexample : ¬ C02_FullFlatten := by
   intro h
@@ -388,31 +421,52 @@ theorem env_getObs_in_space (e : EpisodeCfg) (o : Obs) (st : SimState) (hfl : e.
     simp only [hx, hfl hf, if_true, ApiSpace.has, Bool.and_eq_true, beq_iff_eq, List.all_eq_true, decide_eq_true_eq]
     exact ⟨hl, hb⟩
 
-/-- **nested or flattened, every observation of an episode is a member of the space `observation_space` declares during that
-episode** (read after its reset or at any later moment of it).  Partial in two named hypotheses: `Compat` (F-6: more rules than ACL
-slots) and, for a flattened agent, `flattenable` (F-C02-2: a space gymnasium cannot flatten). -/
-theorem C02_env_obs_in_declared_space (e : EpisodeCfg) : ∀ (sts : List SimState) (o : Obs), o.Ok →
-    (e.flat = true → o.space.flattenable = true) →
-    (∀ st ∈ sts, WfState st ∧ o.Compat st) → ∀ a ∈ e.run o sts, (e.space o).has a = true := by
+/-- nested or flattened, every observation of an episode is a member of the space `observation_space` declares during that episode
+(read after its reset or at any later moment of it), for any object satisfying the construction invariants that the flatten guard
+accepts -/
+theorem C02_env_obs_in_declared_space (e : EpisodeCfg) : ∀ (sts : List SimState) (o : Obs), o.Ok → o.CfgOk →
+    e.accepts o = true → (∀ st ∈ sts, WfState st) → ∀ a ∈ e.run o sts, (e.space o).has a = true := by
   intro sts
   induction sts with
-  | nil => intro o _ _ _ a ha; simp [EpisodeCfg.run] at ha
+  | nil => intro o _ _ _ _ a ha; simp [EpisodeCfg.run] at ha
   | cons st rest ih =>
-    intro o ok hfl h a ha
+    intro o ok c hacc h a ha
     have hst := h st (by simp)
+    have hfl : e.flat = true → o.space.flattenable = true := by
+      intro hf; simpa [EpisodeCfg.accepts, hf] using hacc
     simp only [EpisodeCfg.run, List.mem_cons] at ha
     rcases ha with ha | ha
     · subst ha
-      exact env_getObs_in_space e o st hfl (C02_obs_in_space st hst.1 o ok hst.2)
-    · have := ih (o.next st) (C02_ok_next st hst.1 o ok) (by rw [C02_space_flattenable_const]; exact hfl)
-        (fun st' hst' => ⟨(h st' (by simp [hst'])).1, compat_next st st' o (h st' (by simp [hst'])).2⟩) a ha
+      exact env_getObs_in_space e o st hfl (C02_obs_in_space st hst o ok c)
+    · have := ih (o.next st) (C02_ok_next st hst o ok) (cfgOk_next st o c)
+        (by simpa [EpisodeCfg.accepts, C02_space_flattenable_const] using hacc)
+        (fun st' hst' => h st' (by simp [hst'])) a ha
       rwa [C02_env_space_within_episode] at this
 
-/-- the same, starting from the episode's scenario section -/
-theorem C02_env_episode_in_declared_space (e : EpisodeCfg) (o : Obs) (hw : e.raw.Wf) (hb : e.raw.build e.thr = some o)
-    (hfl : e.flat = true → o.space.flattenable = true)
-    (sts : List SimState) (h : ∀ st ∈ sts, WfState st ∧ o.Compat st) : ∀ a ∈ e.run o sts, (e.space o).has a = true :=
-  C02_env_obs_in_declared_space e sts o (C02_raw_build_ok e.thr e.raw o hw hb) hfl h
+/-- **C02 at environment level, from the episode's configuration alone** (full since F-6 and F-C02-2 are repaired): whatever an
+ACCEPTED configuration says (`EpisodeCfg.build` = observation schemas, constructors and the flatten guard of `ProxyAgent`), nested or
+flattened, every observation handed out during the episode is a member of the space declared during that episode.  The only
+hypotheses left: dictionary keys of the scenario are distinct (`Wf`, true of YAML mappings) and the states are well-formed. -/
+theorem C02_env_episode_in_declared_space (e : EpisodeCfg) (o : Obs) (hw : e.raw.Wf) (hb : e.build = some o)
+    (sts : List SimState) (h : ∀ st ∈ sts, WfState st) : ∀ a ∈ e.run o sts, (e.space o).has a = true := by
+  unfold EpisodeCfg.build at hb
+  cases hr : e.raw.build e.thr with
+  | none => simp [hr] at hb
+  | some o' =>
+    simp only [hr] at hb
+    split at hb
+    · next hacc =>
+      injection hb with hb
+      subst hb
+      exact C02_env_obs_in_declared_space e sts o' (C02_raw_build_ok e.thr e.raw o' hw hr) (C02_raw_build_cfgOk e.thr e.raw o' hr) hacc h
+    · exact absurd hb (by simp)
+
+/-- a flattened agent's configuration with an empty sub-dictionary is REJECTED when the agent is built (it used to fail later, inside
+numpy); the same section with `flatten_obs: false` is accepted -/
+theorem C02_flatten_guard_rejects :
+    (EpisodeCfg.build { raw := .nested [("LINKS", .links [])], thr := none, flat := true }).isNone = true ∧
+    (EpisodeCfg.build { raw := .nested [("LINKS", .links [])], thr := none, flat := false }).isSome = true := by
+  decide
 
 /-- **constant scenario ⇒ one space in every episode**: the declared space is determined by the episode's configuration, so a
 schedule that hands out the same configuration every time declares the same space every time (and a schedule that does not may
